@@ -518,3 +518,21 @@ _PRE = [E(LOT, "WassersteinVectorizer.transform", "            n_blocks = (n_row
         E(LOT, "WassersteinVectorizer.transform", "                    result[block_start:block_end] = block @ self.components_.T\n            return np.vstack(result_blocks)\n", "                    result[block_start:block_end] = block @ self.components_.T\n            return result\n")]
 for _p in ("C12", "C08", "C01", "C02", "C13"):
     silent(_p, "preallocated-result-block-slices", _PRE, "result preallocated and filled block by block through slices bounded by the block (behaviour-preserving)")
+
+# --- C15: structural clauses of the labelled-tree vectorizer
+fire("C15", "before-not-transposed", "R15.1", E(TREE, "sequence_tree_skip_grams", '        global_counts = global_counts.T\n', '        pass\n'), "'before' returns the 'after' matrix")
+fire("C15", "directional-blocks-swapped", "R15.1", E(TREE, "sequence_tree_skip_grams", "scipy.sparse.hstack([global_counts.T, global_counts])", "scipy.sparse.hstack([global_counts, global_counts.T])"),
+     "post block first, labels say pre first")
+fire("C15", "symmetric-doubles", "R15.1", E(TREE, "sequence_tree_skip_grams", "        global_counts += global_counts.T\n", "        global_counts += global_counts\n"), "symmetric is 2M, not M + M^T")
+fire("C15", "orientation-test-negated", "R15.1", E(TREE, "sequence_tree_skip_grams", '    elif window_orientation == "after":', '    elif window_orientation != "after":'), "'directional' takes the 'after' arm")
+fire("C15", "walk-added-before-step", "R15.2", E(TREE, "build_tree_skip_grams", "        walk = walk @ adjacency_matrix\n        count_matrix += walk * weights[i]\n", "        count_matrix += walk * weights[i]\n        walk = walk @ adjacency_matrix\n"),
+     "the k-step walks get the (k+1)-th weight")
+fire("C15", "walk-loop-from-zero", "R15.2", E(TREE, "build_tree_skip_grams", "    for i in range(1, window_size):", "    for i in range(window_size):"), "one step too many, weight 0 used twice")
+fire("C15", "relabel-cols-from-row", "R15.3", E(TREE, "sequence_tree_skip_grams", "        cols = [label_dictionary[unique_labels[x]] for x in count_matrix.col]", "        cols = [label_dictionary[unique_labels[x]] for x in count_matrix.row]"),
+     "columns re-indexed from the row ids")
+fire("C15", "counts-overwritten", "R15.3", E(TREE, "sequence_tree_skip_grams", "        global_counts += reordered_matrix\n", "        global_counts = reordered_matrix\n"), "only the last tree counts")
+fire("C15", "splice-data-shifted", "R15.4", E(PP, "remove_node", "                adj.data[i][index_to_modify : index_to_modify + 1] = data_to_remove", "                adj.data[i][index_to_modify + 1 : index_to_modify + 2] = data_to_remove"),
+     "values spliced one position off their indices")
+fire("C15", "removed-row-kept", "R15.4", E(PP, "remove_node", "            adj.rows[i] = []\n            adj.data[i] = []\n", "            adj.data[i] = []\n"), "the removed node keeps its successor indices", allow_error=True)
+silent("C15", "transpose-method", E(TREE, "sequence_tree_skip_grams", '        global_counts = global_counts.T\n', '        global_counts = global_counts.transpose()\n'), "transpose spelled as a method")
+silent("C15", "symmetric-assignment", E(TREE, "sequence_tree_skip_grams", "        global_counts += global_counts.T\n", "        global_counts = global_counts.T + global_counts\n"), "sum written as an assignment, operands commuted")
